@@ -54,6 +54,9 @@ LETTERS = {
              ("ta-deva", 0x924), ("na-deva", 0x928), ("ra-deva", 0x930)],
     "Hira": [("a-hira", 0x3042), ("ka-hira", 0x304B), ("ki-hira", 0x304D), ("no-hira", 0x306E)],
     "Kana": [("a-kata", 0x30A2), ("ka-kata", 0x30AB), ("ki-kata", 0x30AD), ("no-kata", 0x30CE)],
+    # (Khmer and Myanmar have shapers of their own: kerned through 'dist', marks through mark/mkmk)
+    "Khmr": [("ka-khmer", 0x1780), ("kha-khmer", 0x1781), ("ko-khmer", 0x1782), ("nyo-khmer", 0x1789)],
+    "Mymr": [("ka-myanmar", 0x1000), ("kha-myanmar", 0x1001), ("ga-myanmar", 0x1002)],
 }
 ALL_SCRIPTS = sorted(LETTERS)
 RTL_SCRIPTS = ("Arab", "Hebr")
@@ -74,6 +77,8 @@ MARKS = {
     "Deva": [("candrabindu-deva", 0x901), ("anusvara-deva", 0x902), ("nukta-deva", 0x93C)],
     "Hira": [("voicedcomb-kana", 0x3099)],
     "Kana": [("voicedcomb-kana", 0x3099)],
+    "Khmr": [("nikahit-khmer", 0x17C6), ("bantoc-khmer", 0x17CB)],
+    "Mymr": [("anusvara-myanmar", 0x1036), ("dotbelow-myanmar", 0x1037)],
 }
 # alternate suffix -> GSUB feature, per script family
 ALT_SUFFIXES = {
@@ -93,7 +98,7 @@ LIGATURES = {
     "Hebr": [("alef_lamed-hb", ["alef-hb", "lamed-hb"], "liga")],
     "Deva": [("ka_ta-deva", ["ka-deva", "ta-deva"], "akhn"),
              ("ta_ra-deva", ["ta-deva", "ra-deva"], "rkrf")],
-    "Hira": [], "Kana": [],
+    "Hira": [], "Kana": [], "Khmr": [], "Mymr": [],
 }
 
 
